@@ -7,7 +7,9 @@ PROP_V = ["Props/Properties_C04.v"]
 GEN_MODULES = ["Consts", "Sites"]
 FLOW_FILES = ['cv.c', 'sem_wait.c']
 REPLAY_HINT = "VRT_SEED=<seed> VRT_MODE=<m> _work/h/cv_mix (or waitn_mix)"
-PARTIAL = ["C04_no_stuck is proved as C04_no_stuck_partial (in a quiescent world a thread asleep in nsync_cv_wait is still on the cv queue, or its "
+PARTIAL = ["'(0, or the object's index from nsync_wait_n)': CvModel logs only was_queued for nsync_wait_n records; the returned index is WaitNModel's theorem (C11_index)",
+           'configurations: CvModel has one cv, one mutex, one note; waiter-struct reuse across two cvs (remove_count carries over) is covered by the scenario oracles only',
+           "C04_no_stuck is proved as C04_no_stuck_partial (in a quiescent world a thread asleep in nsync_cv_wait is still on the cv queue, or its "
            "record was taken by a waker that has finished with it while its semaphore is empty) + C04_waker_moves; the full statement "
            "(C04_no_stuck_full, kept as a Definition) additionally needs the per-thread semaphore post accounting, which the abstract mutex "
            "of CvModel does not carry (the semaphore is shared with the thread's mutex sleeps), and the mutex's obligation to wake "
